@@ -159,6 +159,17 @@ def oracle_step(st: OState, op):
     raise ValueError(o)
 
 
+def oracle_ro(st: OState):
+    """read-only methods as functions of the strings: names, len, columns, gap array, gaps per column, is_ragged"""
+    rows = [s for _, s in st.rows]
+    L = st.L
+    return [[i for i, _ in st.rows], L, ["".join(s[j] for s in rows) for j in range(L)],
+            [[c in "-?" for c in s] for s in rows], [sum(1 for s in rows if s[j] in "-?") for j in range(L)], False]
+
+
+RO_NAMES = ["names", "len", "positions", "get_gap_array", "count_gaps_per_pos", "is_ragged"]
+
+
 def oracle_degap(st: OState):
     return [[i, "".join(c for c in s if c not in "-?")] for i, s in st.rows]
 
@@ -423,7 +434,7 @@ def single_ops(L, nrows, arr, mt, tier):
 
 
 def exhaustive_block(tier, flags):
-    shapes = ([(1, 3, "AC-"), (1, 4, "A-"), (2, 3, "A-"), (3, 2, "A-")] if tier == "quick"
+    shapes = ([(1, 3, "AC-"), (1, 4, "A-"), (2, 3, "A-"), (3, 1, "A-")] if tier == "quick"
               else [(1, 5, "AC-"), (2, 4, "A-"), (2, 3, "AC-"), (3, 3, "A-"), (3, 2, "AC-")])
     cases = []
     seen = set()
@@ -564,7 +575,7 @@ def check_case(rep, c, ir, mr, stats, disagreements):
         rep.violation(f"construct:{'arr' if c['arr'] else 'old'}", dict(case=c, observed_impl=ir, broken="constructing the alignment raised"))
         return
     st = OState(c["moltype"], c["arr"], c["rows"])
-    m_first, m_steps, m_degap = (mr if isinstance(mr, list) and len(mr) == 3 else (None, [None] * len(c["ops"]), None))
+    m_first, m_steps, m_degap, m_ro = (mr if isinstance(mr, list) and len(mr) == 4 else (None, [None] * len(c["ops"]), None, None))
     first = ir["first"]
     o_rows = [[i, s] for i, s in st.rows]
     if [r[:2] for r in first["obs"][2]] != o_rows or first["obs"][1] != st.L:
@@ -642,6 +653,18 @@ def check_case(rep, c, ir, mr, stats, disagreements):
                                                                           broken="degap() differs from the strings without gap characters"))
             if mr is not None and m_degap is not None and dg != m_degap and st.moltype != "text":
                 disagreements.append(dict(key="degap", case=c, observed_impl=dg, model_output=m_degap))
+        rv = ir.get("ro_values")
+        if rv is not None:
+            stats["evals"] += 1
+            exp = oracle_ro(st)
+            if isinstance(rv, dict) or rv != exp:
+                which = "raises" if isinstance(rv, dict) else "+".join(n for n, x, y in zip(RO_NAMES, rv, exp) if x != y)
+                stats["violations"] += 1
+                rep.violation(f"{'arr' if st.arr else 'old'}:readonly:{which}", dict(
+                    case=c, expected_by_spec=dict(zip(RO_NAMES, exp)), observed_impl=rv,
+                    broken="a read-only method of the result answers differently from the same function of its rows"))
+            elif mr is not None and m_ro is not None and rv != m_ro:
+                disagreements.append(dict(key="readonly", case=c, observed_impl=rv, model_output=m_ro))
 
 
 def check_new_collection(rep, c, ir, stats):
@@ -707,9 +730,9 @@ def run(tier: str, seed: int) -> int:
     rng = random.Random(seed * 7919 + 3)
     pr = core.proof_stage(PROP, COQ_TARGETS)
     core.proof_coverage(rep, pr, "make theories/Properties/C03.vo theories/Model/AlignedRun.vo && coqc gen/assum_C03.v (Print Assumptions)", [
-        "rows of the annotatable class are modelled as (C08 IndelMap model x C01 sequence-view model); the array-backed class and "
-        "the new-style SequenceCollection have no model of their own: they are compared with the specification (evaluated in Coq "
-        "and by the plain-Python oracle)",
+        "rows of the annotatable class are modelled as (C08 IndelMap model x C01 sequence-view model), the array-backed class as "
+        "named character lists with numpy-style column operations (Model/AlignedArr.v; the alphabet index encoding is not "
+        "modelled); the new-style SequenceCollection has no model: it is compared with the plain-Python oracle",
         "moltype constants (non-degenerate characters, gap characters, IUPAC complement) are data given to the model; the driver "
         "checks them against the live moltype objects",
         "which of the pinned / repaired variants of Model/Aligned.v describes the live code is decided by behavioural probes on "
@@ -779,10 +802,14 @@ def run(tier: str, seed: int) -> int:
 
 
 PARTIAL = [
-    "read-only methods of the result are compared with a rebuilt object by the correspondence check only (no theorem)",
-    "ArrayAlignment and the new-style SequenceCollection have no model: compared with the specification / oracle directly",
-    "out-of-range negative slice bounds, strides and out-of-range integer indices on the annotatable class are rejected or "
-    "answered outside the property (oracle-silent; model-vs-implementation only)",
+    "read-only methods: names, num_seqs, len, to_dict, get_gapped_seq, positions, get_gap_array, count_gaps_per_pos, is_ragged, "
+    "degap are proved to be functions of the rows (readonly_refine_strings); the other read-only methods (to_fasta, "
+    "count_gaps_per_seq, counts_per_seq, iupac_consensus, variable_positions, get_lengths) are compared with a rebuilt object only",
+    "the new-style SequenceCollection has no model: compared with the oracle directly; ArrayAlignment.get_sub_alignment likewise",
+    "slice bounds below -len, strides and out-of-range integer indices on the annotatable class are rejected or answered "
+    "outside the property (oracle-silent; model-vs-implementation only)",
+    "to_rna / to_dna of a protein or text alignment is outside the property (the code coerces when the letters happen to be "
+    "nucleotide codes): not generated, no theorem",
 ]
 
 
